@@ -171,10 +171,6 @@ where
                 }
             }
         }
-
-        if let Some(peer_state) = self.peers_wantlists.get_mut(&peer) {
-            peer_state.0.remove(&cid);
-        }
     }
 
     pub(crate) fn process_incoming_message(&mut self, peer: PeerId, msg: ServerMessage) {
@@ -191,6 +187,13 @@ where
         );
 
         let peer = Arc::new(peer);
+
+        // Removals must be handled first: a CID that is both cancelled and wanted
+        // in the same message is reported as removed and then added.
+        for cid in removals {
+            self.cancel_request(peer.clone(), cid);
+        }
+
         for cid in &additions {
             self.peers_waiting_for_cid
                 .entry(*cid)
@@ -198,10 +201,6 @@ where
                 .push(peer.clone());
         }
         self.schedule_store_get(peer.clone(), additions);
-
-        for cid in removals {
-            self.cancel_request(peer.clone(), cid);
-        }
     }
 
     pub(crate) fn new_blocks_available(&mut self, blocks: Vec<BlockWithCid<S>>) {
